@@ -260,10 +260,12 @@ impl<F: Write + Seek> Allocator<F> {
         if self.fat.len() % fat_entries_per_sector == 0 {
             self.append_fat_sector()?;
         }
-        // Add a new sector to the end of the file and return it.
+        // Add a new sector to the end of the file and return it.  The sector
+        // comes first: if creating it fails, the FAT must not already claim a
+        // sector that the file does not have (such a file cannot be opened).
         let new_sector = self.fat.len() as u32;
-        self.set_fat(new_sector, consts::END_OF_CHAIN)?;
         self.sectors.init_sector(new_sector, init)?;
+        self.set_fat(new_sector, consts::END_OF_CHAIN)?;
         Ok(new_sector)
     }
 
